@@ -5,10 +5,10 @@ set_option linter.unusedSectionVars false
 namespace Dyn
 open Queue Std
 
-variable {K U E : Type} [LT K] [LE K] [DecidableLT K] [DecidableLE K] [IsLinearOrder K] [LawfulOrderLT K] [Arith K]
+variable {K U E Λ : Type} [LT K] [LE K] [DecidableLT K] [DecidableLE K] [IsLinearOrder K] [LawfulOrderLT K] [Arith K]
 
 /-- C03's statement about one fired event: handler time = clock = tap time = the event's own time -/
-def EvOK (ev : Fired K E) : Prop := ev.htime = ev.own ∧ ev.clock = ev.own ∧ ev.tap = ev.own
+def EvOK (ev : Fired K E Λ) : Prop := ev.htime = ev.own ∧ ev.clock = ev.own ∧ ev.tap = ev.own
 
 /-- sorted + ids: the part of the queue invariant that survives arbitrary clock moves -/
 structure Inv0 (q : S K E) : Prop where
@@ -16,7 +16,7 @@ structure Inv0 (q : S K E) : Prop where
   ids : ∀ x ∈ q.heap, x.id < q.nextId
 
 /-- the run invariant: `b` is (a lower bound no smaller than) the own time of the last fired event -/
-structure G (b : K) (s : St K U E) (tr : List (Fired K E)) : Prop where
+structure G (b : K) (s : St K U E) (tr : List (Fired K E Λ)) : Prop where
   inv0 : Inv0 s.q
   lb : ∀ x ∈ s.q.heap, x.live = true → b ≤ x.time
   bnow : b ≤ s.q.now
@@ -73,7 +73,7 @@ theorem popBefore_spec {s : S K E} {bound : K} {q1 : S K E} {x : Entry K E} (h0 
     · simp at hp
 
 /-- firing one posted event: its own time is ≥ everything before, all clocks agree, the invariant continues -/
-theorem firePosted_G (P : Proc K U E) (bound : K) {b : K} {s s' : St K U E} {tr : List (Fired K E)} {ev : Fired K E}
+theorem firePosted_G (P : Proc K U E Λ) (bound : K) {b : K} {s s' : St K U E} {tr : List (Fired K E Λ)} {ev : Fired K E Λ}
     (g : G b s tr) (hf : firePosted P bound s = some (s', ev)) :
     G ev.own s' (tr ++ [ev]) ∧ b ≤ ev.own ∧ ev.own ≤ bound ∧ ev.posted = true ∧ ev.member = true := by
   unfold firePosted at hf
@@ -110,7 +110,7 @@ theorem firePosted_G (P : Proc K U E) (bound : K) {b : K} {s s' : St K U E} {tr 
       · simp at h; subst h; exact Std.le_refl _
 
 /-- when no posted event is due, every live entry is strictly later than the bound -/
-theorem none_due (P : Proc K U E) (bound : K) (s : St K U E) (h0 : Inv0 s.q) (hn : firePosted P bound s = none) :
+theorem none_due (P : Proc K U E Λ) (bound : K) (s : St K U E) (h0 : Inv0 s.q) (hn : firePosted P bound s = none) :
     ∀ x ∈ s.q.heap, x.live = true → bound < x.time := by
   unfold firePosted at hn
   cases hp : popBefore s.q bound with
@@ -140,7 +140,7 @@ theorem none_due (P : Proc K U E) (bound : K) (s : St K U E) (h0 : Inv0 s.q) (hn
             exact Std.lt_of_lt_of_le hyt (before_le (hs2.1 x h))
 
 /-- `runPendingEvents`: every firing is OK and in order; if it completed, nothing due remains -/
-theorem runPending_G (P : Proc K U E) (bound : K) : ∀ (fuel : Nat) (b : K) (s : St K U E) (tr : List (Fired K E)),
+theorem runPending_G (P : Proc K U E Λ) (bound : K) : ∀ (fuel : Nat) (b : K) (s : St K U E) (tr : List (Fired K E Λ)),
     G b s tr → b ≤ bound →
     ∃ b', G b' (runPending P bound fuel s tr).1 (runPending P bound fuel s tr).2.1 ∧ b ≤ b' ∧ b' ≤ bound ∧
       ((runPending P bound fuel s tr).2.2 = true →
@@ -162,7 +162,7 @@ theorem runPending_G (P : Proc K U E) (bound : K) : ∀ (fuel : Nat) (b : K) (s 
       exact ⟨b', g'', Std.le_trans h1 h3, h4, h5⟩
 
 /-- the trace only grows -/
-theorem runPending_prefix (P : Proc K U E) (bound : K) : ∀ (fuel : Nat) (s : St K U E) (tr : List (Fired K E)),
+theorem runPending_prefix (P : Proc K U E Λ) (bound : K) : ∀ (fuel : Nat) (s : St K U E) (tr : List (Fired K E Λ)),
     ∃ ext, (runPending P bound fuel s tr).2.1 = tr ++ ext ∧ ∀ ev ∈ ext, ev.posted = true ∧ ev.member = true := by
   intro fuel
   induction fuel with
@@ -185,7 +185,7 @@ theorem runPending_prefix (P : Proc K U E) (bound : K) : ∀ (fuel : Nat) (s : S
       · exact h2 e he
 
 /-- a stochastic (per-element or fixed-rate) firing at the current clock `t`, when nothing earlier is pending -/
-theorem fireStoch_G (P : Proc K U E) (t : K) (l h : Nat) (e : E) {b : K} {s : St K U E} {tr : List (Fired K E)}
+theorem fireStoch_G (P : Proc K U E Λ) (t : K) (l : Λ) (h : Nat) (e : E) {b : K} {s : St K U E} {tr : List (Fired K E Λ)}
     (g : G b s tr) (hnow : s.q.now = t) (hlb : ∀ x ∈ s.q.heap, x.live = true → t ≤ x.time) :
     G t (fireStoch P t l h e s).1 (tr ++ [(fireStoch P t l h e s).2]) := by
   have hbt : b ≤ t := by rw [← hnow]; exact g.bnow
@@ -211,15 +211,15 @@ theorem fireStoch_G (P : Proc K U E) (t : K) (l h : Nat) (e : E) {b : K} {s : St
 theorem inv0_setNow {s : St K U E} (t : K) (h : Inv0 s.q) : Inv0 (setNow s t).q := ⟨h.sorted, h.ids⟩
 
 /-- changing only the user world keeps `G` -/
-theorem G_setU {b : K} {s : St K U E} {tr : List (Fired K E)} (g : G b s tr) (u : U) : G b { s with u := u } tr :=
+theorem G_setU {b : K} {s : St K U E} {tr : List (Fired K E Λ)} (g : G b s tr) (u : U) : G b { s with u := u } tr :=
   ⟨g.inv0, g.lb, g.bnow, g.ok, g.mono, g.below⟩
 
 /-- invariant carried through the tranche: clock = t, nothing live before t -/
-structure AtStep (t : K) (s : St K U E) (tr : List (Fired K E)) : Prop where
+structure AtStep (t : K) (s : St K U E) (tr : List (Fired K E Λ)) : Prop where
   g : G t s tr
   now : s.q.now = t
 
-theorem synFire_AtStep (P : Proc K U E) (t : K) (acc : St K U E × List (Fired K E)) (x : Nat × E × Nat)
+theorem synFire_AtStep (P : Proc K U E Λ) (t : K) (acc : St K U E × List (Fired K E Λ)) (x : Λ × E × Nat)
     (h : AtStep t acc.1 acc.2) : AtStep t (synFire P t acc x).1 (synFire P t acc x).2 := by
   unfold synFire
   split
@@ -228,17 +228,17 @@ theorem synFire_AtStep (P : Proc K U E) (t : K) (acc : St K U E × List (Fired K
     simp only [fireStoch]; show (exec _ acc.1).q.now = t; rw [exec_now]; exact h.now
   · exact h
 
-theorem foldl_AtStep (P : Proc K U E) (t : K) (evs : List (Nat × E × Nat)) :
-    ∀ (acc : St K U E × List (Fired K E)), AtStep t acc.1 acc.2 →
+theorem foldl_AtStep (P : Proc K U E Λ) (t : K) (evs : List (Λ × E × Nat)) :
+    ∀ (acc : St K U E × List (Fired K E Λ)), AtStep t acc.1 acc.2 →
       AtStep t (evs.foldl (synFire P t) acc).1 (evs.foldl (synFire P t) acc).2 := by
   induction evs with
   | nil => intro acc h; exact h
   | cons x xs ih => intro acc h; exact ih _ (synFire_AtStep P t acc x h)
 
 /-- every event the tranche adds to the trace was a member of its locus when its handler was called (C05) -/
-def StochMember (tr : List (Fired K E)) : Prop := ∀ ev ∈ tr, ev.member = true
+def StochMember (tr : List (Fired K E Λ)) : Prop := ∀ ev ∈ tr, ev.member = true
 
-theorem synFire_member (P : Proc K U E) (t : K) (acc : St K U E × List (Fired K E)) (x : Nat × E × Nat)
+theorem synFire_member (P : Proc K U E Λ) (t : K) (acc : St K U E × List (Fired K E Λ)) (x : Λ × E × Nat)
     (h : StochMember acc.2) : StochMember (synFire P t acc x).2 := by
   unfold synFire
   split
@@ -249,13 +249,13 @@ theorem synFire_member (P : Proc K U E) (t : K) (acc : St K U E × List (Fired K
     · simp at h'; subst h'; simpa [fireStoch] using hm
   · exact h
 
-theorem foldl_member (P : Proc K U E) (t : K) (evs : List (Nat × E × Nat)) :
-    ∀ (acc : St K U E × List (Fired K E)), StochMember acc.2 → StochMember (evs.foldl (synFire P t) acc).2 := by
+theorem foldl_member (P : Proc K U E Λ) (t : K) (evs : List (Λ × E × Nat)) :
+    ∀ (acc : St K U E × List (Fired K E Λ)), StochMember acc.2 → StochMember (evs.foldl (synFire P t) acc).2 := by
   induction evs with
   | nil => intro acc h; exact h
   | cons x xs ih => intro acc h; exact ih _ (synFire_member P t acc x h)
 
-theorem firePosted_now_le (P : Proc K U E) (bound : K) {s s' : St K U E} {ev : Fired K E}
+theorem firePosted_now_le (P : Proc K U E Λ) (bound : K) {s s' : St K U E} {ev : Fired K E Λ}
     (hf : firePosted P bound s = some (s', ev)) : s'.q.now ≤ bound := by
   unfold firePosted at hf
   cases hp : popBefore s.q bound with
@@ -277,7 +277,7 @@ theorem firePosted_now_le (P : Proc K U E) (bound : K) {s s' : St K U E} {ev : F
         exact hle
       · simp at hp
 
-theorem runPending_now_le (P : Proc K U E) (bound : K) : ∀ (fuel : Nat) (s : St K U E) (tr : List (Fired K E)),
+theorem runPending_now_le (P : Proc K U E Λ) (bound : K) : ∀ (fuel : Nat) (s : St K U E) (tr : List (Fired K E Λ)),
     s.q.now ≤ bound → (runPending P bound fuel s tr).1.q.now ≤ bound := by
   intro fuel
   induction fuel with
@@ -294,11 +294,11 @@ theorem runPending_now_le (P : Proc K U E) (bound : K) : ∀ (fuel : Nat) (s : S
 /-! ### whole runs -/
 
 /-- loop invariant of both loops: the run invariant with a bound not above the loop's time variable -/
-structure LoopInv (L : Loop K U E) : Prop where
+structure LoopInv (L : Loop K U E Λ) : Prop where
   ex : ∃ b, G b L.s L.tr ∧ b ≤ L.t
   now : L.s.q.now ≤ L.t
 
-theorem synIter_inv (P : Proc K U E) (fuel : Nat) (L : Loop K U E)
+theorem synIter_inv (P : Proc K U E Λ) (fuel : Nat) (L : Loop K U E Λ)
     (hone : ∀ t : K, t ≤ Arith.add t Arith.one) (h : LoopInv L) : LoopInv (synIter P fuel L).1 := by
   obtain ⟨⟨b, g, hbt⟩, hnow⟩ := h
   unfold synIter
